@@ -78,12 +78,12 @@ fn int_array(v: &[i64]) -> Object {
 
 /// One subsection. W each 0..=MAXW, Index present ([start count], start 0..=3, count 0..=2) or absent
 /// (default [0 Size], Size 0..=2), C symbolic content bytes.
-fn xrefstm_harness<const C: usize, const MAXW: usize>() {
+fn xrefstm_harness<const C: usize, const MAXW: usize, const HAS_INDEX: bool>() {
     let w0: usize = kani::any();
     let w1: usize = kani::any();
     let w2: usize = kani::any();
     kani::assume(w0 <= MAXW && w1 <= MAXW && w2 <= MAXW);
-    let has_index: bool = kani::any();
+    let has_index: bool = HAS_INDEX;
     let start: i64 = kani::any();
     let count: i64 = kani::any();
     let size: i64 = kani::any();
@@ -126,19 +126,28 @@ fn xrefstm_harness<const C: usize, const MAXW: usize>() {
 
 #[kani::proof]
 #[kani::unwind(10)]
-fn c02_xrefstm_c6_w2() {
-    xrefstm_harness::<6, 2>();
+#[kani::stub(std::string::String::from_utf8_lossy, crate::object::verif_kani::lossy_stub)]
+fn c02_xrefstm_index_c6_w2() {
+    xrefstm_harness::<6, 2, true>();
+}
+#[kani::proof]
+#[kani::unwind(10)]
+#[kani::stub(std::string::String::from_utf8_lossy, crate::object::verif_kani::lossy_stub)]
+fn c02_xrefstm_noindex_c6_w2() {
+    xrefstm_harness::<6, 2, false>();
 }
 #[kani::proof]
 #[kani::unwind(12)]
-fn c02_xrefstm_c8_w4() {
-    xrefstm_harness::<8, 4>();
+#[kani::stub(std::string::String::from_utf8_lossy, crate::object::verif_kani::lossy_stub)]
+fn c02_xrefstm_index_c8_w4() {
+    xrefstm_harness::<8, 4, true>();
 }
 
 /// Two subsections [s0 1 s1 1] with fixed widths [1 1 1]: later subsections continue in the data
 /// where the previous one stopped; ids come from the Index pairs.
 #[kani::proof]
 #[kani::unwind(10)]
+#[kani::stub(std::string::String::from_utf8_lossy, crate::object::verif_kani::lossy_stub)]
 fn c02_xrefstm_two_sections() {
     let s0: i64 = kani::any();
     let s1: i64 = kani::any();
@@ -201,6 +210,7 @@ fn c01_xrefstm_entry_packing() {
 #[kani::stub(std::alloc::alloc_zeroed, verif_support::alloc_zeroed4k)]
 #[kani::stub(std::alloc::realloc, verif_support::realloc4k)]
 #[kani::stub(std::alloc::dealloc, verif_support::dealloc_nop)]
+#[kani::stub(std::string::String::from_utf8_lossy, crate::object::verif_kani::lossy_stub)]
 fn c04_xrefstm_hostile_widths() {
     let w0: i64 = kani::any();
     let w1: i64 = kani::any();
@@ -222,6 +232,7 @@ fn c04_xrefstm_hostile_widths() {
 
 #[kani::proof]
 #[kani::unwind(10)]
+#[kani::stub(std::string::String::from_utf8_lossy, crate::object::verif_kani::lossy_stub)]
 fn c04_xrefstm_hostile_index() {
     let start: i64 = kani::any();
     let count: i64 = kani::any();
